@@ -925,7 +925,7 @@ func ruleL5(c *Ctx) *RuleResult {
 				r.fail(key, c.Pos(posOf(a.instr)), FuncName(fn), "request code never writes an open slot", "store to "+c.fieldName(a.field))
 				continue
 			}
-			conds := ifsOn(fn, isGateCall)
+			conds := ifsOnV(fn, isGateCall)
 			if len(conds) > 0 && onlyIf(fn, a.instr, conds, true) {
 				r.ok(key, c.Pos(posOf(a.instr)), FuncName(fn), "request code reads the open-segment slot only after hasContent() returned true in the same critical section", "control dependent on hasContent() in this function")
 				continue
@@ -978,7 +978,7 @@ func (c *Ctx) onlyWhenSlotEmpty(fn *ssa.Function, slots map[*types.Var]bool, dep
 			continue
 		}
 		caller := e.Caller.Func
-		conds := ifsOn(caller, func(v ssa.Value) bool {
+		conds := ifsOnV(caller, func(v ssa.Value) bool {
 			b, ok := v.(*ssa.BinOp)
 			if !ok || (b.Op != token.EQL && b.Op != token.NEQ) {
 				return false
